@@ -58,8 +58,9 @@ def model_file(kinds):
     """-> dict(builds, verdict, log=[bool per evaluated assertion])"""
     log = []
     builds = True
-    if any(k in STATIC for k in kinds):
-        # rejected by the type checker before anything is evaluated
+    if any(k in STATIC for k in kinds) or "J" in kinds or "I" in kinds:
+        # rejected by the type checker before anything is evaluated (an imported file that is missing or does not parse is found when
+        # the file's imports are read, which is before its first statement runs)
         return {"builds": False, "verdict": False, "log": []}
     for k in kinds:
         if k in "EIJ":
@@ -159,13 +160,14 @@ def check_trace(files, order, mode, rc, out, err):
             want_line = "Pass" if m["verdict"] else "Fail"
             if sec["verdict_line"] != want_line:
                 viol.append(("verdict:%s-reported-%s%s:%s" % (want_line, sec["verdict_line"], tag, hist), {"file": n, "kinds": files[n]}))
-            # log: every evaluated assertion exactly once, in this file's section
-            if sec["ok"] != sum(1 for x in m["log"] if x) or sec["notok"] != sum(1 for x in m["log"] if not x):
-                viol.append(("log%s:%s" % (tag, hist), {"file": n, "kinds": files[n], "expected_ok": sum(1 for x in m["log"] if x),
-                                                "expected_not_ok": sum(1 for x in m["log"] if not x), "observed_ok": sec["ok"], "observed_not_ok": sec["notok"]}))
         else:
             if sec["verdict_line"] == "Pass":
                 viol.append(("verdict:builderror-reported-Pass:%s" % hist, {"file": n}))
+        # log: every evaluated assertion exactly once, in this file's section -- also the ones evaluated before the
+        # statement at which the build stopped (a sixth-round remark about the unchanged tree)
+        if sec["ok"] != sum(1 for x in m["log"] if x) or sec["notok"] != sum(1 for x in m["log"] if not x):
+            viol.append(("log%s%s:%s" % ("" if m["builds"] else ":before-build-error", tag, hist), {"file": n, "kinds": files[n], "expected_ok": sum(1 for x in m["log"] if x),
+                                            "expected_not_ok": sum(1 for x in m["log"] if not x), "observed_ok": sec["ok"], "observed_not_ok": sec["notok"]}))
         # RESULTS summary
         want_sum = "PASS" if m["verdict"] else "FAIL"
         got = None
